@@ -118,6 +118,8 @@ def geom(
     else:
         g["units"] = None
     g["tol"] = draw(st.sampled_from([None, None, 1e-10, 1e-9])) if tol else None
+    # the same mesh requested by cell size (edges / n as computed) instead of by cell counts
+    g["by_cell"] = draw(st.integers(0, 3)) == 0
     return g
 
 
@@ -199,7 +201,16 @@ def build_mesh(g, bc="", subs=None, region=None):
             if g.get("int_subs") and all(float(x).is_integer() for x in a + b):
                 a, b = [int(x) for x in a], [int(x) for x in b]
             sr[name] = df.Region(p1=a, p2=b)
-    return df.Mesh(region=region, n=tuple(int(i) for i in g["n"]), bc=bc, subregions=sr)
+    n = tuple(int(i) for i in g["n"])
+    if g.get("by_cell"):
+        cell = tuple(float(e) / k for e, k in zip(region.edges, n))
+        try:
+            m = df.Mesh(region=region, cell=cell, bc=bc, subregions=sr)
+            if tuple(int(i) for i in m.n) == n:
+                return m
+        except ValueError:
+            pass  # not commensurate within the 0.1 % test (far-away meshes): acceptance itself is C01's subject
+    return df.Mesh(region=region, n=n, bc=bc, subregions=sr)
 
 
 @st.composite
